@@ -105,12 +105,25 @@ def main(tier, seed):
             continue        # an open finding of C04: the unchanged tools accept this faulty schema, there is no diagnostic to judge
         if me and mq:
             catalogue.append(("catalogue", "corpus/C04/diag/" + os.path.basename(pth), t_, {"quoted": mq.group(1), "codes_any": [int(c[2:]) for c in me.group(1).split()]}))
+    base_lines = {}
     for k in range(nsch):
         r = rng(seed, "c20/%d" % k)
         S = G.gen_schema(r, name="gq_%d" % k)
         cases = [(c, d, t, e) for (c, d, t, e) in G.mutants(r, S) if "quoted" in e] + G.lexical_mutants(r, S)
         if k == 0:
             cases += catalogue
+        # the same faults with the offending name as the last token of its line and the next token several lines further down:
+        # the diagnostic belongs to the line of the name, not to the line of whatever the parser looks at when it reduces
+        spread = []
+        for (cls, desc, text, expect) in cases:
+            q = expect.get("quoted", "")
+            if "undefined" in cls and re.match(r"^\w+$", q) and len(re.findall(r"\b%s\b" % re.escape(q), text)) == 1 and "line" not in expect:
+                m_ = re.search(r"\b%s\b" % re.escape(q), text)
+                t2 = text[:m_.end()] + "\n\n(* a remark *)\n\n\n" + text[m_.end():]
+                e2 = dict(expect)
+                e2["same_line_as"] = desc       # nothing before the name moved: the diagnostic names the same line as without the blank lines
+                spread.append((cls + "_name_ends_line", desc + " [name last on its line]", t2, e2))
+        cases += spread
         for (cls, desc, text, expect) in cases:
             fexp = os.path.join(wdir, "q.exp")
             open(fexp, "w", encoding="latin-1").write(text)
@@ -142,6 +155,14 @@ def main(tier, seed):
                         what = "%s: diagnostics %s printed, only PE%03d applies: %s" % (desc, sorted({d[1] for d in errs}), expect["code"], [d[3][-90:] for d in errs][:3])
                     if what is None and "line" in expect and not any(abs(d[2] - expect["line"]) <= 1 for d in hit):
                         what = "diagnostic for %s attributed to line %s, the token is on line %d" % (desc, [d[2] for d in hit], expect["line"])
+                    if what is None:
+                        base_lines[desc] = sorted(d[2] for d in hit)
+                        if "same_line_as" in expect and expect["same_line_as"] in base_lines and base_lines[expect["same_line_as"]] != base_lines[desc]:
+                            what = "the diagnostic that quotes %r names line %s; with nothing but blank lines and a remark added after the name it names line %s (%s)" % (
+                                q, base_lines[expect["same_line_as"]], base_lines[desc], desc)
+                            hist["same_line_checked"] = hist.get("same_line_checked", 0)
+                        elif "same_line_as" in expect:
+                            hist["same_line_checked"] = hist.get("same_line_checked", 0) + 1
             # a redeclaration also names the line of the first declaration: the distance between the two lines it
             # prints must be the distance between the two declarations (whatever the tool counts lines from)
             if what is None and errs and cls == "duplicate_declaration":
@@ -164,6 +185,37 @@ def main(tier, seed):
                               signature=("unrecognized_char_ignored" if cls == "unrecognized_character" and not errs else None))
             elif len(samples) < 4 and cls in ("illegal_character", "bad_identifier", "undefined_type", "non_ascii"):
                 samples.append({"class": cls, "diag": [d[3] for d in errs if expect["quoted"] in d[3]][0][-90:]})
+    # ---- several files: a schema found through EXPRESS_PATH; its diagnostics name its own file, whatever was looked up after it
+    mdir = os.path.join(wdir, "multi")
+    os.makedirs(os.path.join(mdir, "lib"), exist_ok=True)
+    open(os.path.join(mdir, "lib", "alpha_s.exp"), "w").write(
+        "SCHEMA alpha_s;\n\nENTITY a_one;\n  p : INTEGER;\nEND_ENTITY;\n\nENTITY a_two;\n  q : no_such_alpha_type;\nEND_ENTITY;\n\nEND_SCHEMA;\n")
+    open(os.path.join(mdir, "lib", "beta_s.exp"), "w").write(
+        "SCHEMA beta_s;\n\nENTITY b_one;\n  p : INTEGER;\nEND_ENTITY;\n\n\n\nENTITY b_two;\n  q : no_such_beta_type;\nEND_ENTITY;\n\nEND_SCHEMA;\n")
+    mains = {
+        "main_two.exp": ("SCHEMA main_two;\nUSE FROM alpha_s;\nUSE FROM beta_s;\nENTITY m; x : a_one; y : b_one; END_ENTITY;\nEND_SCHEMA;\n",
+                         [("no_such_alpha_type", "alpha_s.exp", 8), ("no_such_beta_type", "beta_s.exp", 10)]),
+        "main_missing.exp": ("SCHEMA main_missing;\nUSE FROM alpha_s;\nUSE FROM gamma_s;\nENTITY m; x : a_one; END_ENTITY;\nEND_SCHEMA;\n",
+                             [("no_such_alpha_type", "alpha_s.exp", 8)]),
+    }
+    for mname, (mtext, wants) in sorted(mains.items()):
+        mp = os.path.join(mdir, mname)
+        open(mp, "w").write(mtext)
+        rc, diags, files, txt = run_tool(bdir, "check-express", mp, wdir, extra_env={"EXPRESS_PATH": os.path.join(mdir, "lib")})
+        evals += 1
+        hist["multi_file"] = hist.get("multi_file", 0) + 1
+        for (q, fname, line) in wants:
+            hit = [d for d in diags if d[0] == "ERROR" and q in d[3]]
+            what = None
+            if not hit:
+                what = "%s: no diagnostic quotes %s; printed: %s" % (mname, q, [d[3][-100:] for d in diags][:3])
+            elif not any(re.search(r"(?:^|/)%s:\d+: " % re.escape(fname), d[3]) for d in hit):
+                what = "%s: the diagnostic that quotes %s is attributed to another file than lib/%s: %s" % (mname, q, fname, hit[0][3][-140:])
+            elif not any(abs(d[2] - line) <= 1 for d in hit):
+                what = "%s: the diagnostic that quotes %s says line %s; the name is on line %d of lib/%s" % (mname, q, [d[2] for d in hit], line, fname)
+            if what:
+                oracle_fail += 1
+                res.violation(what, {"input_file": mp, "replay": "EXPRESS_PATH=%s check-express %s" % (os.path.join(mdir, "lib"), mp)})
     # ---- every call site passes as many arguments as the message of the diagnostic has conversions (static scan of /repo)
     def split_args(txt):
         out_, d_, cur_ = [], 0, ""
